@@ -1,14 +1,16 @@
 (* C17 — Emitted bytecode is well formed and the VM cannot be crashed.
    Property theorems only; proofs are [exact <lemma>]. *)
 From Coq Require Import ZArith NArith List String.
-From EvyV Require Import Base SymTab SymTabProofs Bytecode BytecodeProofs Vm VmProofs.
+From EvyV Require Import Base SymTab SymTabProofs Bytecode BytecodeProofs Vm VmProofs Compile CompileWfProofs CompileSymProofs CompileCtlProofs.
 Require Import EvyV.Gen.Opcodes.
 Import ListNotations.
 Open Scope N_scope.
 
-(* The full statement for the compiler (not proved here; C16's Compile.v proves
-   the fragment [compile_wf_partial]).  What C17 provides instead is the
-   verified validator below, run on every bytecode the REAL compiler emits. *)
+(* The full statement for the compiler is proved for a fragment of the language
+   (C16_compile_wf_ctl_partial; the parts about locals are repeated below:
+   C17_compile_local_operands_partial, C17_compile_stmt_table_partial).  For
+   everything else C17 provides the verified validator below, run on every
+   bytecode the REAL compiler emits. *)
 
 (* The validator is sound: every bytecode it accepts decodes completely into
    defined instructions, has all constant/global/local operands in range, all
@@ -39,23 +41,56 @@ Print Assumptions C17_wf_vm_safe_partial.
 (* Over EVERY history of Push/Pop/Define/Resolve: two symbols that are alive
    at the same time (stored in any table of the current chain, shadowed or not)
    never share (scope, index). *)
-Theorem C17_symtab_no_sharing : forall (h : list sop),
+Theorem C17_symtab_no_sharing : forall (h : list SymTab.sop),
   let s := fst (st_run h new_symtab) in
   forall d1 d2 n1 n2 y1 y2, live_at d1 n1 y1 s -> live_at d2 n2 y2 s ->
     sscp y1 = sscp y2 -> sidx y1 = sidx y2 -> d1 = d2 /\ n1 = n2.
 Proof. exact symtab_no_sharing. Qed.
 Print Assumptions C17_symtab_no_sharing.
 
+(* … in particular two names the compiler can resolve at the same moment never
+   get the same (scope, slot): for every table satisfying the invariant Inv that
+   all histories maintain (inv_run) and that the compiler maintains
+   (C17_compile_stmt_table_partial below). *)
+Theorem C17_visible_no_sharing : forall (s : symtab) (n1 n2 : str) (y1 y2 : symbol), Inv s ->
+  st_resolve n1 s = Some y1 -> st_resolve n2 s = Some y2 -> sscp y1 = sscp y2 -> sidx y1 = sidx y2 -> n1 = n2.
+Proof. exact visible_no_sharing. Qed.
+Print Assumptions C17_visible_no_sharing.
+
+(* The compiler model itself (Compile.v, compared with the real compiler byte
+   for byte by C16): every statement of the fragment cfrag (declarations,
+   assignments, if / else-if / else, while, break, for loops with and without
+   loop variable, nested; expressions in efrag — _partial) compiled inside a
+   block keeps Inv, leaves the enclosing scopes alone and never lowers the
+   bound that ends as LocalCount. *)
+Theorem C17_compile_stmt_table_partial : forall s st st',
+  cfrag_stmt s = true -> compile_stmt true s st = COk st' ->
+  outers (csym st) <> [] -> Inv (csym st) -> has_gbw (csym st) ->
+  Inv (csym st') /\ outers (csym st') = outers (csym st) /\ bound (csym st) <= bound (csym st').
+Proof. exact compile_stmt_table. Qed.
+Print Assumptions C17_compile_stmt_table_partial.
+
+(* … and for whole programs of the fragment pfrag2 (see C16_compile_wf_ctl_partial,
+   which gives the full WF): every OpGetLocal / OpSetLocal the compiler emits
+   addresses a slot below the LocalCount of the emitted program. *)
+Theorem C17_compile_local_operands_partial : forall (p : slist) (st : cstate),
+  pfrag2 p = true -> compile p = COk st -> cbreaks st = [] ->
+  forall instrs pc i, decode_all (ccode st) = Some instrs -> In (pc, i) instrs ->
+    (opc_of_N (iop i) = Some GetLocal \/ opc_of_N (iop i) = Some SetLocal) ->
+    arg0 i < st_local_count (csym st).
+Proof. exact compile_local_operands. Qed.
+Print Assumptions C17_compile_local_operands_partial.
+
 (* Every LOCAL symbol any Define/Resolve of the history returned has an index
    below the root's nestedMaxIndex once all open scopes are popped, i.e. below
    Bytecode.LocalCount: the VM's local area is large enough. *)
-Theorem C17_symtab_locals_below_localcount : forall (h : list sop) (y : symbol),
+Theorem C17_symtab_locals_below_localcount : forall (h : list SymTab.sop) (y : symbol),
   In (RSym y) (snd (st_run h new_symtab)) -> sscp y = LocalScope ->
   sidx y < nmax (st_pop_all (fst (st_run h new_symtab))).
 Proof. exact symtab_locals_below_localcount. Qed.
 Print Assumptions C17_symtab_locals_below_localcount.
 
-Theorem C17_symtab_locals_below_localcount_closed : forall (h : list sop) (y : symbol),
+Theorem C17_symtab_locals_below_localcount_closed : forall (h : list SymTab.sop) (y : symbol),
   outers (fst (st_run h new_symtab)) = [] ->
   In (RSym y) (snd (st_run h new_symtab)) -> sscp y = LocalScope ->
   sidx y < st_local_count (fst (st_run h new_symtab)).
@@ -78,7 +113,7 @@ Print Assumptions C17_define_then_resolve.
 
 (* Block structure: whatever is defined inside a (well-nested) block is gone
    when the block is closed. *)
-Theorem C17_block_is_transparent : forall (h : list sop) (s : symtab) (n : str),
+Theorem C17_block_is_transparent : forall (h : list SymTab.sop) (s : symtab) (n : str),
   wellnested h ->
   st_resolve n (fst (st_run (SPush :: h ++ [SPop]) s)) = st_resolve n s.
 Proof. exact block_is_transparent. Qed.
